@@ -6,6 +6,21 @@ ids = [p['id'] for p in props]
 
 # id -> (category, technique, level text, level note, design ref); only built checks are listed
 CHECKS = {
+ "C08": ("exploration",
+   "property-based testing: bounded-exhaustive enumeration of short histories + proptest random histories against a notification-mirror / connection-state-machine model; differential run against AccumulatingRuntime",
+   "All histories to depth 5 (quick) / 6 (thorough) over a 20-op reduced alphabet are enumerated completely; random histories of up to 150 calls and a lock-step differential against AccumulatingRuntime go far beyond that depth. Outside the enumerated sub-space the evidence is bounded by the reported counts.",
+   "Trusts the harness identity/codec/runtime/handler; the connection state cross-check reads the verif-hooks snapshot.",
+   "DESIGN.md §4 C08"),
+ "C09": ("exploration",
+   "property-based testing: proptest-generated single-instance histories with multi-generation identities against per-call membership-state invariants",
+   "Random search with shrinking over histories with 5 generations per address (own address included); invariants evaluated after every call on iter_membership_state(), notifications and sends.",
+   "Trusts the harness components; change_identity restricted to its documented use (own address).",
+   "DESIGN.md §4 C09"),
+ "C10": ("exploration",
+   "property-based testing: proptest-generated self-update-biased histories against an incarnation ledger (hook snapshot + outgoing headers) and a told-incarnation bound",
+   "Random search with shrinking; the ledger re-states the statement's rule (max(own,suspected)+1 for suspicions >= own) and compares it with the real incarnation after every call and with every outgoing header.",
+   "Own incarnation at call boundaries is read through the verif-hooks snapshot; acceptance of datagrams is classified structurally.",
+   "DESIGN.md §4 C10"),
  "C19": ("exploration",
    "property-based testing: proptest-generated single-instance API/datagram/timer histories against a destination-address invariant",
    "Random search with shrinking over single-instance histories (30k quick / 2M thorough) that contain the instance's own older and newer identities; every send_to destination is compared with the identity held at the time of the send. Evidence bounded by the reported counts, not a proof.",
